@@ -21,10 +21,16 @@ import (
 	"time"
 )
 
-const (
-	repoDir = "/repo"
-	goBin   = "go1.26.8"
-)
+const goBin = "go1.26.8"
+
+// repoDir is the tree under test: /repo's working tree, or (VERIF_REPO) a
+// snapshot of it, so that a long background sweep is not disturbed by edits
+// made to /repo meanwhile.
+var repoDir = "/repo"
+
+// modfileArgs redirects the harness module's `replace` to repoDir when that is
+// not /repo (the committed go.mod says /repo).
+var modfileArgs []string
 
 // verifDir is where this checkout of the machinery lives (normally /verif; a
 // snapshot under /root/.vp/runs/<n>/verif when started through `vp run`).
@@ -38,6 +44,28 @@ func init() {
 		verifDir = d
 		simDir = filepath.Join(d, "sim")
 	}
+	if r := os.Getenv("VERIF_REPO"); r != "" {
+		repoDir = r
+	}
+}
+
+func prepareModfile() {
+	if repoDir == "/repo" {
+		return
+	}
+	raw, err := os.ReadFile(filepath.Join(simDir, "go.mod"))
+	if err != nil {
+		infra("%v", err)
+	}
+	mod := strings.Replace(string(raw), "=> /repo", "=> "+repoDir, 1)
+	mf := filepath.Join(buildDir, "go.mod")
+	if err := os.WriteFile(mf, []byte(mod), 0o644); err != nil {
+		infra("%v", err)
+	}
+	if sum, err := os.ReadFile(filepath.Join(simDir, "go.sum")); err == nil {
+		_ = os.WriteFile(filepath.Join(buildDir, "go.sum"), sum, 0o644)
+	}
+	modfileArgs = []string{"-modfile=" + mf}
 }
 
 type tierCfg struct {
@@ -204,6 +232,7 @@ func build(id string, race bool) (bin string, digest string) {
 	digest = string(d)
 	bin = filepath.Join(buildDir, lid+".test")
 	args := []string{"test", "-c", "-overlay", filepath.Join(ov, "overlay.json"), "-tags", "verif", "-vet=off"}
+	args = append(args, modfileArgs...)
 	if race {
 		bin = filepath.Join(buildDir, lid+".race.test")
 		args = append(args, "-race")
@@ -337,6 +366,7 @@ func main() {
 		infra("%v", err)
 	}
 	defer cleanup()
+	prepareModfile()
 	switch os.Args[1] {
 	case "replay":
 		if len(os.Args) < 3 {
